@@ -1559,6 +1559,23 @@ ldb_versions_recover(ldb_versions_t *vset, int *save_manifest) {
         }
       }
 
+      if (rc == LDB_OK) {
+        /* A file whose smallest key sorts after its largest key can
+           only come from a damaged descriptor. Compaction setup
+           (add_boundary_inputs) does not terminate on such a file. */
+        size_t i;
+
+        for (i = 0; i < edit.new_files.length; i++) {
+          const meta_entry_t *entry = edit.new_files.items[i];
+
+          if (ldb_compare(&vset->icmp, &entry->meta.smallest,
+                                       &entry->meta.largest) > 0) {
+            rc = LDB_CORRUPTION; /* "smallest key > largest key" */
+            break;
+          }
+        }
+      }
+
       if (rc == LDB_OK)
         builder_apply(&builder, &edit);
 
